@@ -141,7 +141,7 @@ Qed.
 Theorem rule_matches_spec pd r : rule_typed r = true -> rule_matches pd r = Ok (spec_rule_applies pd r).
 Proof.
   unfold rule_typed, rule_matches, spec_rule_applies. intros T.
-  destruct (rule_nature r); [|reflexivity]. cbv zeta.
+  destruct (rule_nature r); [|reflexivity|reflexivity]. cbv zeta.
   destruct (length (pd_fields pd) =? length (filter (applies (pd_dir pd)) (rule_fds r)))%nat eqn:E; cbn [negb].
   - apply Nat.eqb_eq in E. rewrite any_mismatch_spec; [|apply forallb_filter; exact T|exact E].
     cbn [bind]. rewrite negb_involutive. reflexivity.
@@ -162,6 +162,30 @@ Qed.
 
 Theorem nocompression_always_applies pd r : rule_nature r = NoCompression -> spec_rule_applies pd r = true.
 Proof. unfold spec_rule_applies. intros ->. reflexivity. Qed.
+
+(* a fragmentation rule (RuleNature.FRAGMENTATION) is neither branch of the loop body of
+   Ruler.match_packet_descriptor: it never applies, is never yielded, whatever its field descriptors
+   (no typing hypothesis: the descriptors are not looked at) *)
+Theorem fragmentation_never_applies pd r : rule_nature r = Fragmentation -> spec_rule_applies pd r = false.
+Proof. unfold spec_rule_applies. intros ->. reflexivity. Qed.
+Theorem fragmentation_never_matches pd r : rule_nature r = Fragmentation -> rule_matches pd r = Ok false.
+Proof. unfold rule_matches. intros ->. reflexivity. Qed.
+Theorem fragmentation_never_yielded rules pd r :
+  In r (gen_list (match_packet_descriptor rules pd)) -> rule_nature r <> Fragmentation.
+Proof.
+  induction rules as [|r0 rules IH]; cbn [match_packet_descriptor gen_list]; [intros []|].
+  destruct (rule_matches pd r0) as [[|]| |] eqn:E; cbn [gen_list]; try (now intros []); [|exact IH].
+  intros [<-|H]; [|exact (IH H)]. intros N. rewrite (fragmentation_never_matches pd r0 N) in E. discriminate.
+Qed.
+(* ... and the matcher behaves as if the fragmentation rules were not in the rule set *)
+Definition not_fragmentation (r : rule) : bool := match rule_nature r with Fragmentation => false | _ => true end.
+Theorem match_packet_descriptor_skips_fragmentation rules pd :
+  match_packet_descriptor rules pd = match_packet_descriptor (filter not_fragmentation rules) pd.
+Proof.
+  induction rules as [|r rules IH]; [reflexivity|]. cbn [filter]. unfold not_fragmentation at 1.
+  destruct (rule_nature r) eqn:N; cbn [match_packet_descriptor]; rewrite IH; try reflexivity.
+  now rewrite (fragmentation_never_matches pd r N).
+Qed.
 
 (* ---- C18 ----------------------------------------------------------------------------------- *)
 Theorem select_fds_spec d fds :
@@ -366,6 +390,25 @@ Qed.
 
 Theorem cm_compress_parse_error parse rules packet d st e : parse packet = Exc e -> cm_compress parse rules packet d st = Exc e.
 Proof. intros H. unfold cm_compress. rewrite H. reflexivity. Qed.
+
+(* fragmentation rules are never selected by ContextManager.compress: the outcome (FIRST or BEST, result or
+   exception) is that of the rule set without them -- no typing hypothesis, their descriptors are never read *)
+Theorem cm_compress_ignores_fragmentation parse rules packet d st :
+  cm_compress parse rules packet d st = cm_compress parse (filter not_fragmentation rules) packet d st.
+Proof.
+  unfold cm_compress. destruct (parse packet) as [p|e|]; cbn [bind]; try reflexivity.
+  now rewrite (match_packet_descriptor_skips_fragmentation rules).
+Qed.
+(* in particular a rule set made of fragmentation rules only compresses no packet *)
+Theorem cm_compress_only_fragmentation parse rules packet d st p :
+  parse packet = Ok p -> Forall (fun r => rule_nature r = Fragmentation) rules ->
+  cm_compress parse rules packet d st = Exc RuleDescriptorMatchError.
+Proof.
+  intros HP HF. rewrite cm_compress_ignores_fragmentation.
+  assert (filter not_fragmentation rules = []) as ->.
+  { induction HF as [|r rules Hr _ IH]; [reflexivity|]. cbn [filter]. unfold not_fragmentation at 1. now rewrite Hr. }
+  unfold cm_compress. rewrite HP. cbn [bind match_packet_descriptor best_loop]. destruct st; reflexivity.
+Qed.
 
 Theorem cm_decompress_noid ct rules s d : rules <> [] ->
   (forall r, In r rules -> is_prefix (rule_id r) s = false) -> cm_decompress ct rules s d = Exc RuleIDMatchError.
